@@ -91,6 +91,19 @@ type Plan struct {
 	AfterClose     bool // after Close, one more Put: it has to be refused
 	Batch          int  // size of the next WriteCompressed batch (0: small, occasionally medium)
 	MaxOps         int
+	// PreShape > 0: the first stream declares a chain in its dictionary (shape PreShape-1 of
+	// DeclShapes, variant PreVariant) and PreArgs (0..8) filters are passed on top; PreFilter
+	// alone chooses all of this at random.
+	PreShape, PreVariant, PreArgs int
+	// ChainFrom < ChainTo: the program is a series of small streams, one per filter chain
+	// pattern with index in [ChainFrom, ChainTo) (see ChainPattern); ChainDecl > 0 stacks every
+	// one of them on the declared shape ChainDecl-1.
+	ChainFrom, ChainTo, ChainDecl int
+	// BoundaryKind > 0: the program is a sweep of large objects whose padding grows byte by
+	// byte from BoundaryFrom to BoundaryTo, so that every token of the tail behind the padding
+	// is cut by the reader's buffer boundary at every position (1 direct objects, 2 members of
+	// object streams, 3 stream dictionaries / the stream keyword)
+	BoundaryKind, BoundaryFrom, BoundaryTo int
 }
 
 // BatchSizes are the sizes of WriteCompressed batches that get explored beyond the small ones:
@@ -101,7 +114,9 @@ type Want struct {
 	Obj      pdf.Object // normalised snapshot of what was written (streams: the user's dictionary)
 	IsStream bool
 	Data     []byte
-	Unreadable bool // PreFilter: the chain written is not the chain declared
+	Declared bool // the caller's dictionary declares a chain; Data is what all of it decodes to
+	NArgs    int  // the number of filters passed to OpenStream
+	Pre      []byte // Declared: the bytes handed to Write (encoded with the declared chain)
 }
 
 type argRec struct {
@@ -440,6 +455,10 @@ var filterChoices = []pdf.Filter{pdf.FilterFlate{}, pdf.FilterASCII85{}, pdf.Fil
 
 func (x *runner) genFilters() []pdf.Filter {
 	var fs []pdf.Filter
+	if x.r.IntN(5) == 0 {
+		// any chain of 1..8 filters, any pattern of parameters
+		return ChainPattern(x.cfg.V(), x.r.IntN(NumChainPatterns))
+	}
 	for j := []int{0, 0, 1, 1, 2, 3}[x.r.IntN(6)]; j > 0; j-- {
 		f := filterChoices[x.r.IntN(len(filterChoices))]
 		if _, isFlate := f.(pdf.FilterFlate); isFlate && x.cfg.VIdx < 2 {
@@ -450,31 +469,72 @@ func (x *runner) genFilters() []pdf.Filter {
 	return fs
 }
 
+// streamSpec fixes what a stream is made of; nil fields are chosen at random.
+type streamSpec struct {
+	fs        []pdf.Filter // the filters passed to OpenStream
+	haveFs    bool
+	declShape int          // -1: the dictionary declares no chain
+	decl      []pdf.Filter
+	body      []byte
+	quiet     bool // one Write, nothing in between
+}
+
 // stream runs OpenStream ... Close with the in-stream operations chosen at random.
 func (x *runner) stream(plan *Plan) bool {
+	sp := streamSpec{declShape: -1}
+	if plan.PreFilter || plan.PreShape > 0 {
+		shape, variant, nargs := x.r.IntN(4), x.r.IntN(8), []int{0, 1, 1, 2, 2, 3, 5}[x.r.IntN(7)]
+		if plan.PreShape > 0 {
+			shape, variant, nargs = plan.PreShape-1, plan.PreVariant, plan.PreArgs
+		}
+		plan.PreFilter, plan.PreShape = false, 0
+		sp.declShape = shape
+		sp.decl = DeclShapes[shape][variant%len(DeclShapes[shape])]
+		sp.haveFs = true
+		for i := 0; i < nargs; i++ {
+			if x.r.IntN(2) == 0 {
+				sp.fs = append(sp.fs, withParm[x.r.IntN(len(withParm))])
+			} else {
+				sp.fs = append(sp.fs, noParm[x.r.IntN(len(noParm))])
+			}
+		}
+	}
+	return x.streamWith(plan, sp)
+}
+
+func (x *runner) streamWith(plan *Plan, sp streamSpec) bool {
 	ref, ok := x.pickRef()
 	if !ok {
 		return false
 	}
 	d := x.genDict()
-	fs := x.genFilters()
-	body := x.genBody()
+	fs := append([]pdf.Filter{}, sp.fs...)
+	if !sp.haveFs {
+		fs = x.genFilters()
+	}
+	for i := range fs {
+		fs[i] = forVersion(x.cfg.V(), fs[i])
+	}
+	body := sp.body
+	if body == nil {
+		body = x.genBody()
+		if sp.declShape >= 0 {
+			body = declBody(x.r)
+		}
+	}
 	toWrite := body
-	pre := false
-	if plan.PreFilter {
-		plan.PreFilter = false
-		pre = true
+	pre := sp.declShape >= 0
+	if pre {
 		x.res.PreFilter = true
-		// /Filter is present already, in an array with spare capacity of which
-		// the caller holds a longer view
-		backing := make(pdf.Array, 3)
-		backing[0] = pdf.Name("ASCIIHexDecode")
-		backing[1] = pdf.Name("Sentinel1")
-		backing[2] = pdf.Name("Sentinel2")
-		d["Filter"] = backing[:1]
-		x.remember(backing)
-		fs = []pdf.Filter{pdf.FilterRunLength{}}
-		toWrite = []byte(fmt.Sprintf("%x>", body))
+		decl := make([]pdf.Filter, len(sp.decl))
+		for i := range decl {
+			decl[i] = forVersion(x.cfg.V(), sp.decl[i])
+		}
+		// the caller has encoded the data already and says so in the dictionary
+		for _, o := range declare(d, x.cfg.V(), sp.declShape, decl) {
+			x.remember(o)
+		}
+		toWrite, _ = encodeChain(x.cfg.V(), decl, body)
 	} else if len(fs) == 0 && !x.cfg.Encrypt && x.r.IntN(8) == 0 {
 		// a caller-supplied /Length
 		l := len(body)
@@ -497,21 +557,15 @@ func (x *runner) stream(plan *Plan) bool {
 		ftoks = append(ftoks, hx([]byte(name))+" "+WireString(parms, false))
 	}
 	// what each filter of the chain makes of its input (innermost first): the
-	// model takes the filter encoders from this table
+	// model takes the filter encoders from this table (filter name, parameters, input)
 	var etoks []string
-	cur := toWrite
-	for i := len(fs) - 1; i >= 0; i-- {
-		var buf bytes.Buffer
-		name, _, _ := fs[i].Info(x.cfg.V())
-		enc, err := fs[i].Encode(x.cfg.V(), nopCloser{&buf})
-		if err != nil {
-			panic(err)
+	cur, steps := encodeChain(x.cfg.V(), fs, toWrite)
+	for _, st := range steps {
+		name, parms, _ := fs[st.Pos].Info(x.cfg.V())
+		if parms == nil {
+			parms = pdf.Dict{}
 		}
-		enc.Write(cur)
-		enc.Close()
-		out := append([]byte{}, buf.Bytes()...)
-		etoks = append(etoks, hx([]byte(name))+" "+hx(cur)+" "+hx(out))
-		cur = out
+		etoks = append(etoks, hx([]byte(name))+" "+WireString(parms, false)+" "+hx(st.In)+" "+hx(st.Out))
 	}
 	// whether the encoded data reaches 1024 bytes: the filters' output is known, the cipher's length is a formula
 	sbig := 0
@@ -519,9 +573,9 @@ func (x *runner) stream(plan *Plan) bool {
 		sbig = 1
 	}
 	x.tok("O %d %d %s %d %s E %d %s", ref.Number(), ref.Generation(), WireString(d, false), len(fs), strings.Join(ftoks, " "), len(etoks), strings.Join(etoks, " "))
-	x.desc("OpenStream(%v, %s, %d filters)", ref, WireString(d, false), len(fs))
+	x.desc("OpenStream(%v, %s, filters %s)", ref, WireString(d, false), filterNames(x.cfg.V(), fs))
 	var ws io.WriteCloser
-	want := &Want{Obj: Norm(stripStreamKeys(d)), IsStream: true, Data: body, Unreadable: pre}
+	want := &Want{Obj: Norm(stripStreamKeys(d)), IsStream: true, Data: body, Declared: pre, NArgs: len(fs), Pre: toWrite}
 	cls, text := x.call(func() error {
 		var err error
 		ws, err = x.w.OpenStream(ref, d, fs...)
@@ -537,6 +591,9 @@ func (x *runner) stream(plan *Plan) bool {
 
 	// chunks
 	nchunks := 1 + x.r.IntN(3)
+	if sp.quiet {
+		nchunks = 1
+	}
 	rest := toWrite
 	for c := 0; c < nchunks; c++ {
 		var chunk []byte
@@ -567,7 +624,11 @@ func (x *runner) stream(plan *Plan) bool {
 			return false
 		}
 		// between the chunks: usually nothing, sometimes a burst of deferred operations
-		for burst := []int{0, 0, 0, 1, 1, 2, 3, 5}[x.r.IntN(8)]; burst > 0; burst-- {
+		burst := []int{0, 0, 0, 1, 1, 2, 3, 5}[x.r.IntN(8)]
+		if sp.quiet {
+			burst = 0
+		}
+		for ; burst > 0; burst-- {
 			switch k := x.r.IntN(10); {
 			case k < 5:
 				dref, ok := x.alloc()
@@ -695,6 +756,11 @@ func (x *runner) compressed(plan *Plan) bool {
 			objs[0] = pdf.NewStream(pdf.Dict{}, []byte("x"))
 		}
 	}
+	return x.writeCompressed(refs, objs)
+}
+
+// writeCompressed performs WriteCompressed(refs, objs...).
+func (x *runner) writeCompressed(refs []pdf.Reference, objs []pdf.Object) bool {
 	var sb strings.Builder
 	fmt.Fprintf(&sb, "C %d", len(refs))
 	for _, r := range refs {
@@ -781,6 +847,12 @@ func Run(r *rand.Rand, cfg Config, plan Plan) *Result {
 				alive = x.compressed(&plan)
 			}
 		}
+	}
+	if alive && plan.ChainTo > plan.ChainFrom {
+		alive = x.chainSweep(&plan)
+	}
+	if alive && plan.BoundaryKind > 0 {
+		alive = x.boundarySweep(&plan)
 	}
 	if alive && plan.Batch > 0 {
 		// the planned batch, and a second WriteCompressed in the same file
